@@ -255,6 +255,22 @@ func (t *ArithP) Mul(ctx context.Context, a *PArgs, r *PReply) error {
 	return nil
 }
 
+// ArithV takes its argument by value (the pointer type implements Reset, so the server pools the object)
+type ArithV struct{ h *handlerEnv }
+
+func (t *ArithV) Mul(ctx context.Context, a PArgs, r *PReply) error {
+	touchResMeta(ctx, a.Id)
+	if *r != (PReply{}) {
+		return fmt.Errorf("dirty-reply-object %+v", *r)
+	}
+	c, err := t.h.run(a.Id, a.A, a.B, a.Mode, a.Text)
+	if err != nil {
+		return err
+	}
+	r.Id, r.C = a.Id, c
+	return nil
+}
+
 // ownership of pooled objects by in-flight requests
 func (h *handlerEnv) own(id int, ptrs ...unsafe.Pointer) {
 	h.mu.Lock()
@@ -314,6 +330,7 @@ func newSrvRig(gated bool, opts ...server.OptionFn) *srvRig {
 	r.srv.Plugins.Add(vetoPlugin{})
 	r.srv.RegisterName("Arith", &Arith{h: r.h}, "")
 	r.srv.RegisterName("ArithP", &ArithP{h: r.h}, "")
+	r.srv.RegisterName("ArithV", &ArithV{h: r.h}, "")
 	r.srv.RegisterFunctionName("Fn", "mul", func(ctx context.Context, a *SArgs, rep *SReply) error {
 		touchResMeta(ctx, a.Id)
 		c, err := r.h.run(a.Id, a.A, a.B, a.Mode, a.Text)
